@@ -117,11 +117,6 @@ Definition run_intfns : dispatcher := fun op args =>
     | [a] => match as_uint a with Some a => Some (sx_res XS (to_words (val a))) | None => Some sx_bad end
     | _ => Some sx_bad
     end
-  else if opeq op "known-noncanon" then
-    match args with
-    | [a] => match as_uint a with Some a => Some (sx_bool (known_C10_noncanonical a)) | None => Some sx_bad end
-    | _ => Some sx_bad
-    end
   (* ---- rational level ---- *)
   else if opeq op "q-fact" then
     match args with
@@ -146,15 +141,9 @@ Definition run_intfns : dispatcher := fun op args =>
     | [a] => match as_rat a with Some a => Some (sx_res sx_N (q_try_as_usize a)) | None => Some sx_bad end
     | _ => Some sx_bad
     end
-  else if opeq op "q-known-noncanon" then
-    (* the known try_as_usize defect applies to the numerator that reaches
-       try_as_usize, i.e. after simplify *)
+  else if opeq op "known-npr" then
     match args with
-    | [a] => match as_rat a with
-             | Some a => Some (sx_bool (match simplify a with
-                                        | Ok s => known_C10_noncanonical (rnum s)
-                                        | _ => false end))
-             | None => Some sx_bad end
+    | [a] => match as_rat a with Some a => Some (sx_bool (known_C10_npr_negative_r a)) | None => Some sx_bad end
     | _ => Some sx_bad
     end
   else if opeq op "q-fib" then
